@@ -1,6 +1,13 @@
+// The repo's own integration-test observer (kept in sync with the aggregator's API by the repo itself).
+#[allow(dead_code)]
+#[path = "/repo/mithril-aggregator/tests/test_extensions/aggregator_observer.rs"]
+mod aggregator_observer;
+
 mod c14;
 mod c15;
 mod c16;
+#[allow(dead_code)]
+mod sut;
 
 fn main() {
     let args = vcore::parse_args();
